@@ -103,6 +103,42 @@ def bad_inputs(pool, rng, sources):
     return out[: rng.randint(4, len(out))]
 
 
+def is_inert(inp) -> bool:
+    """True for inputs that by protocol cannot legitimately change decoder state: malformed text, wrong headers,
+    bad checksums, unknown PGNs, out-of-range single frames, fast-packet frames with fewer than 2 data bytes.
+    A well-formed first frame of a fast-packet PGN (>= 2 data bytes) restarts that stream's reassembly by design,
+    even if the message it starts is rejected later."""
+    ep, arg, _ = inp
+    try:
+        if ep == "decode_tcp":
+            n = arg[0] & 0x0F
+            ident = int.from_bytes(arg[1:5], "big")
+            data = arg[5:5 + n]
+        elif ep == "decode_usb":
+            if len(arg) != 20 or arg[:2] != b"\xaa\x55":
+                return True
+            ident = int.from_bytes(arg[5:9], "little")
+            data = arg[10:10 + arg[9]]
+        elif ep == "decode_yacht_devices_string":
+            parts = arg.split()
+            ident = int(parts[2], 16)
+            data = bytes(int(x, 16) for x in parts[3:])
+        elif ep == "decode_basic_string":
+            parts = arg.split(",")
+            pgn = int(parts[2])
+            data = bytes(int(x, 16) for x in parts[6:6 + int(parts[5])])
+            ident = wire.can_id(0, pgn, 0, 255)
+        else:
+            return True
+    except Exception:  # noqa: BLE001 - unparsable: inert
+        return True
+    _, pgn, _, _ = wire.parse_id(ident)
+    ds = refdb.db().by_pgn.get(pgn)
+    if not ds or ds[0].type != "Fast":
+        return True
+    return len(data) < 2 or (data[0] & 0x1F) != 0
+
+
 def probes(pool, rng, sources):
     out = []
     for _ in range(3):
@@ -145,11 +181,17 @@ def run_shard(spec, acc):
         cfg = make_config(rng)
         claims = {s: [hist.claim_name(rng.randrange(1 << 20), rng.choice([1851, 1855, 229, 137]))] for s in sources}
         events = hist.build_history(pool, rng, sources, 40 if quick else 120, claims, p_claim=0.1)
-        # keep the history's sequence counters on fast streams within 0..5
+        # sequence counters of the history: within 0..5 (6/7 are reserved for the probes) and different from the
+        # previous message of the same stream
+        last_seq, msg_seq = {}, {}
         for ev in events:
             if ev.tag == "fast":
+                key = (ev.pgn, ev.src, ev.dst)
+                if ev.msg_no not in msg_seq:
+                    prev = last_seq.get(key, rng.randrange(6))
+                    msg_seq[ev.msg_no] = last_seq[key] = (prev + rng.randint(1, 5)) % 6
                 b0 = ev.data[0]
-                ev.data = bytes([((b0 >> 5) % 6) << 5 | (b0 & 0x1F)]) + ev.data[1:]
+                ev.data = bytes([msg_seq[ev.msg_no] << 5 | (b0 & 0x1F)]) + ev.data[1:]
         inputs = []
         for ev in events:
             inputs.append(("ev", ev, ev_input(ev, rng)))
@@ -179,6 +221,26 @@ def run_shard(spec, acc):
                 kind = "fast-packet-probe" if len(pr) > 1 else "single-frame-probe"
                 acc.violation(f"history-changes-{kind}", f"config {cfg}: probe decodes differently after the history than on a decoder that only saw its claims",
                               dict(w, probe=[i[1].hex() for i in pr], victim=repr(ov)[:400], reference=repr(orf)[:400]))
+
+        # --- A2: inputs rejected with an error must not matter at all ---------------------------------
+        # a decoder that is given the same history WITHOUT the inputs the victim rejected with an error must
+        # return the same thing for every remaining input (in-progress fast packets included)
+        clean = NMEA2000Decoder(**cfg)
+        removed = [o[0] == "exc" and t == "bad" and is_inert(inp) for (t, ev, inp), o in zip(inputs, outcomes)]
+        for pos, ((t, ev, inp), o) in enumerate(zip(inputs, outcomes)):
+            if removed[pos]:
+                continue
+            oc = call(clean, inp)
+            acc.count("positions_compared_without_rejected_inputs")
+            if pos == 0:
+                acc.count("rejected_inputs_removed", sum(removed))
+            if oc != o:
+                acc.violation("rejected-input-changes-later-result",
+                              f"config {cfg}: input {pos} gives {o[0]} after a history with rejected inputs but {oc[0]} when those inputs are left out",
+                              dict(w, position=pos, with_rejected=repr(o)[:300], without=repr(oc)[:300],
+                                   all_inputs=[[i[0], (i[1].hex() if isinstance(i[1], (bytes, bytearray)) else i[1]), i[2], isinstance(i[1], (bytes, bytearray))] for _, _, i in inputs[:pos + 1]],
+                                   last_rejected=[[i[0], (i[1].hex() if isinstance(i[1], (bytes, bytearray)) else i[1])] for k_, ((_, _, i), oo) in enumerate(list(zip(inputs, outcomes))[:pos]) if removed[k_]][-3:]))
+                break
 
         # --- B: determinism ------------------------------------------------------------
         again = NMEA2000Decoder(**cfg)
